@@ -121,6 +121,7 @@ func cmdCheck(args []string) int {
 	var all []*InstanceResult
 	var problems []string
 	loadWall := 0.0
+	lemmaReruns := 0
 	for ji := range spec.Jobs {
 		js := &spec.Jobs[ji]
 		if *only != "" && js.Name != *only {
@@ -154,6 +155,26 @@ func cmdCheck(args []string) int {
 		}
 	}
 	solveAll(all, pools, 16)
+	// helper lemmas: an instance whose lemmas are not all proved is re-run without them
+	for i, r := range all {
+		bad := false
+		for _, q := range r.Queries {
+			if q.Kind == "lemma" && q.Status != "unsat" {
+				bad = true
+			}
+		}
+		if !bad {
+			continue
+		}
+		fmt.Printf("  helper lemma not proved in %s[%s]: re-running without lemmas\n", r.Job, paramStr(r.Params))
+		js := jobByName0(spec.Jobs, r.Job)
+		lemmasOff = true
+		nr := runInstance(loaded[js.Pkg+"|"+js.Harness], js, r.Params, pools, pools["z3-new"])
+		lemmasOff = false
+		solveAll([]*InstanceResult{nr}, pools, 16)
+		all[i] = nr
+		lemmaReruns++
+	}
 	{
 		{
 			for _, r := range all {
@@ -194,6 +215,7 @@ func cmdCheck(args []string) int {
 	reported := map[string]bool{}
 	invBroken := map[string]bool{}
 	reachOK := map[string]bool{}
+	lemmasProved := 0
 	for _, r := range all {
 		for _, f := range r.Funcs {
 			if o, ok := funcs[f.Name]; ok {
@@ -218,6 +240,10 @@ func cmdCheck(args []string) int {
 				if q.Status != "sat" && q.Status != "unsat" {
 					problems = append(problems, fmt.Sprintf("%s is %s", rk, q.Status))
 				}
+				continue
+			}
+			if q.Kind == "lemma" {
+				lemmasProved++
 				continue
 			}
 			if !relevant(prop, q.Label) {
@@ -383,6 +409,15 @@ func maxInt(a, b int) int {
 		return a
 	}
 	return b
+}
+
+func jobByName0(js []JobSpec, name string) *JobSpec {
+	for i := range js {
+		if js[i].Name == name {
+			return &js[i]
+		}
+	}
+	return nil
 }
 
 func keys2(m map[string]bool) []string {
